@@ -361,7 +361,7 @@ Proof.
       rewrite HwA. ring.
 Qed.
 
-Corollary den_term_cf ks t n :
+Corollary den_term_cf_eq ks t n :
   length (fst t) = length ks -> length n = length ks ->
   peq (den_term ks t n) (den_term_cf ks t n).
 Proof.
